@@ -3,6 +3,7 @@ import LdarModel.Lemmas.Units
 import LdarModel.Generated.Units
 import LdarModel.Generated.EmisSeed
 import LdarModel.Generated.GenState
+import LdarModel.Generated.SimNumber
 import Mathlib.Data.List.Perm.Subperm
 import Mathlib.Data.List.Range
 import Mathlib.Data.List.Nodup
@@ -621,6 +622,91 @@ theorem GenState.no_cross_case_state :
     ∧ Generated.GenState.copyHooks = [("sources", "Source", "__reduce__")]
     ∧ Generated.GenState.sourceReduceAttrs = Generated.GenState.sourceReconstructAttrs
     ∧ Generated.GenState.sourceReduceAttrs ≠ [] := by decide +kernel
+
+/-! ### every requested simulation number is run exactly once (batches of five)
+
+The scenario files are indexed by simulation number, so "different simulation numbers receive
+different scenarios" also needs the manager to RUN the numbers `0 .. n-1`, each once. -/
+
+/-- the numbering as written: `batch_count * 5 + simulation` -/
+def stdNum : SimNum := fun b _ k => b * 5 + k
+
+theorem simNumbersFrom_full_batches (m b : Nat) (tl : List Nat) :
+    simNumbersFrom stdNum b (List.replicate m 5 ++ tl)
+      = List.range' (b * 5) (m * 5) ++ simNumbersFrom stdNum (b + m) tl := by
+  induction m generalizing b with
+  | zero => simp
+  | succ m ih =>
+    rw [List.replicate_succ, List.cons_append, simNumbersFrom, ih (b + 1)]
+    have h5 : (List.range 5).map (stdNum b 5) = List.range' (b * 5) 5 := by
+      simp [stdNum, List.range'_eq_map_range]
+    rw [h5, ← List.append_assoc]
+    have : List.range' (b * 5) 5 ++ List.range' ((b + 1) * 5) (m * 5) = List.range' (b * 5) ((m + 1) * 5) := by
+      have := @List.range'_append (b * 5) 5 (m * 5) 1
+      simp only [Nat.one_mul] at this
+      rw [show (b + 1) * 5 = b * 5 + 5 by omega, this]
+      congr 1; omega
+    rw [this]
+    congr 2; omega
+
+theorem simNumbersFrom_single (b c : Nat) :
+    simNumbersFrom stdNum b [c] = List.range' (b * 5) c := by
+  simp [simNumbersFrom, stdNum, List.range'_eq_map_range]
+
+/-- for EVERY requested count `n` the numbers run with the code's numbering are exactly
+`0, 1, …, n-1`, each once, in order -/
+theorem numbers_run_exactly_once (n : Nat) : simNumbers stdNum n = List.range n := by
+  unfold simNumbers batchSimulations
+  by_cases h : n > 5
+  · simp only [h, ↓reduceIte]
+    rw [simNumbersFrom_full_batches]
+    by_cases hr : n % 5 > 0
+    · simp only [hr, ↓reduceIte, Nat.zero_add, Nat.zero_mul]
+      rw [simNumbersFrom_single, List.range_eq_range']
+      have := @List.range'_append 0 (n / 5 * 5) (n % 5) 1
+      simp only [Nat.one_mul, Nat.zero_add] at this
+      rw [this]
+      congr 1
+      have := Nat.div_add_mod n 5
+      omega
+    · simp only [hr, ↓reduceIte, Nat.zero_add, Nat.zero_mul, simNumbersFrom, List.append_nil]
+      rw [List.range_eq_range']
+      congr 1
+      have := Nat.div_add_mod n 5
+      omega
+  · simp only [h, ↓reduceIte]
+    rw [simNumbersFrom_single, List.range_eq_range']
+
+/-- table obligation: the expressions extracted from BOTH run loops of `SimulationManager` are the
+standard numbering on every batch the loops see (a numbering by the size of the current batch,
+`batch_count * sim_count + simulation`, breaks this theorem) -/
+theorem SimNumber.numbering_is_standard :
+    ∀ b c k : Nat, Generated.SimNumber.simNumberDebug b c k = b * 5 + k
+      ∧ Generated.SimNumber.simNumberPool b c k = b * 5 + k := by
+  intro b c k
+  unfold Generated.SimNumber.simNumberDebug Generated.SimNumber.simNumberPool
+  constructor <;> omega
+
+/-- … hence both execution modes of the current tree run `0 .. n-1`, each once, for every `n` -/
+theorem numbers_run_generated (n : Nat) :
+    simNumbers Generated.SimNumber.simNumberDebug n = List.range n
+    ∧ simNumbers Generated.SimNumber.simNumberPool n = List.range n := by
+  have hd : Generated.SimNumber.simNumberDebug = stdNum := by
+    funext b c k; exact (SimNumber.numbering_is_standard b c k).1
+  have hp : Generated.SimNumber.simNumberPool = stdNum := by
+    funext b c k; exact (SimNumber.numbering_is_standard b c k).2
+  rw [hd, hp]
+  exact ⟨numbers_run_exactly_once n, numbers_run_exactly_once n⟩
+
+/-- the model can be wrong: numbering by the size of the current batch runs 2 and 3 twice and
+never 5 and 6 when seven simulations are requested (batches [5, 2]) -/
+theorem batch_size_numbering_counterexample :
+    simNumbers (fun b c k => b * c + k) 7 = [0, 1, 2, 3, 4, 2, 3]
+    ∧ simNumbers (fun b c k => b * c + k) 7 ≠ List.range 7 := by decide
+
+/-- non-vacuity: 11 simulations are three batches -/
+example : batchSimulations 11 = [5, 5, 1] ∧ batchSimulations 5 = [5] ∧ batchSimulations 0 = [0]
+    ∧ simNumbers stdNum 11 = List.range 11 := by decide
 
 /-! ### verdict -/
 
